@@ -3,7 +3,7 @@ import ast
 
 from .. import prov
 from ..cfg import CFG
-from ..report import AnalysisError, norm
+from ..report import borrow, AnalysisError, norm
 from ..srcmodel import own_nodes, own_statements
 from ..terms import Resolver, alternatives, show, walk
 
@@ -38,6 +38,14 @@ def run(rep, ctx):
     rep.run_rule("C13.R3", "copy hooks return the object itself; __reduce__ argument order matches the constructor's quantity form", r3_copies, ctx)
     rep.run_rule("C13.R5", "conversion functions never update their argument in place (an ndarray operand would be changed for the caller)", r5_no_inplace_in_conversions, ctx)
     rep.run_rule("C13.R4", "CreateCopy builds a new object through CreateWithQuantity from the source's own value and quantity", r4_createcopy, ctx)
+    from . import c07
+    rep.rule("C13.R6", "operations work on copies of the operands' composing maps (shared with C07.R3), interned quantities are returned as requested including the caption (C07.R5), and the pickle hooks hand every part of the state back (C07.R8)")
+    try:
+        borrow(rep, c07.r3_ownership, ctx, "C07.R3", "C13.R6")
+        borrow(rep, c07.r5_interning, ctx, "C07.R5", "C13.R6", keep=lambda o: ":ret:" in o.key)
+        borrow(rep, c07.r8_pickle, ctx, "C07.R8", "C13.R6")
+    except AnalysisError as e:
+        rep.error("C13.R6", str(e))
     rep.not_decided += [
         "equality of a pickle round-trip beyond the argument order of __reduce__ (Quantity's own round-trip is C07.R8)",
         "mutation by numpy ufuncs called with out= (none occur in the library)",
